@@ -16,7 +16,7 @@ RULE = ("Blocked: every thread program of call depth 1..4 with 0..3 nested `with
         "arguments on the stack); it is parked in a C-level Semaphore.acquire, so its frames are genuinely running. For "
         "lowlevel.inspect_frame(frame), extract(thread) and extract_since(<frame of the other thread>), at EVERY possible thread-switch point (after each call instruction, at each backward jump and function entry - CPython's eval-breaker checks - observed with per-opcode tracing) inside inspect_frame / unwrap_thread / "
         "unwrap_stackslice the target is advanced by k gates (k = 1..to completion; and 'finishes and an impostor thread starts') "
-        "- all single deviations (quick) and all pairs (thorough). Oracle: no exception escapes, the worker survives, inspect_frame "
+        "- all single deviations (quick) and additionally all pairs {first: 1 or 2 gates} x {second: 1 gate, returned, exited, exited+impostor} at every pair of switch points (thorough). Oracle: no exception escapes, the worker survives, inspect_frame "
         "raises or returns the quiescent reference snapshot of a position the target occupied during the call, every frame "
         "extract reports belongs to the target thread, its contexts match a visited position. state = (scheduling point, "
         "target position); transition = one controller line or one target advance.")
@@ -471,12 +471,14 @@ def deviations(npoints, npos, bound, with_imp):
         for a in amts:
             yield {k: a}
     if bound >= 2:
+        # pairs: a small step first (1 or 2 gates), then any kind of second deviation
+        second = [1, "RET", "FIN"] + (["IMP"] if with_imp else [])
         for k1 in range(npoints + margin):
             for k2 in range(k1 + 1, npoints + margin):
-                for a1 in amts:
-                    if a1 in ("RET", "FIN", "IMP"):
+                for a1 in (1, 2):
+                    if a1 >= npos:
                         continue
-                    for a2 in amts:
+                    for a2 in second:
                         yield {k1: a1, k2: a2}
 
 
@@ -550,7 +552,7 @@ def run_race(ctx, which):
         refs = R.reference()
         npos = R.npos
         checker = {"race_extract": check_extract, "race_since": check_since}.get(which, check_inspect)
-        for start_pos in ((1, 3) if ctx.tier == "quick" else (1, 2, 3, 5)):
+        for start_pos in ((1, 3) if ctx.tier == "quick" else (1, 3, 5)):
             if start_pos >= npos:
                 continue
             # fault-free run: count points
